@@ -53,6 +53,8 @@ pub fn scenarios(prop: &str, tier: Tier) -> Vec<ScenarioDef> {
         "C17" => crate::c17::scenarios(tier),
         "C18" => crate::c18::scenarios(tier),
         "C20" => crate::c20::scenarios(tier),
+        "C08" => crate::c08::scenarios(tier),
+        "C16" => crate::c16::scenarios(tier),
         _ => Vec::new(),
     }
 }
@@ -60,6 +62,8 @@ pub fn scenarios(prop: &str, tier: Tier) -> Vec<ScenarioDef> {
 pub fn seq_configs(prop: &str, tier: Tier) -> Vec<crate::seqx::Config> {
     match prop {
         "C10" => crate::c10::configs(tier),
+        "C08" => crate::c08::configs(tier),
+        "C16" => crate::c16::configs(tier),
         _ => Vec::new(),
     }
 }
